@@ -2,13 +2,15 @@ module verif/harness
 
 go 1.22.0
 
-require github.com/jmattheis/goverter v0.0.0
+require (
+	github.com/jmattheis/goverter v0.0.0
+	golang.org/x/tools v0.25.0
+)
 
 require (
 	github.com/dave/jennifer v1.6.0 // indirect
 	golang.org/x/mod v0.21.0 // indirect
 	golang.org/x/sync v0.8.0 // indirect
-	golang.org/x/tools v0.25.0 // indirect
 )
 
 replace github.com/jmattheis/goverter => /repo
